@@ -274,7 +274,10 @@ def machine_factory(ctx):
                        "pc/Myr": "km/s", "AU/yr": "m/s"}
                 sc["units"][c] = alt[sc["units"][c]]
             elif kind == "t_ref":
-                sc["t_ref"] = {"mjd": 51234.5, "scale": "tcb", "format": "mjd"} if sc["t_ref"] is None or sc["t_ref"]["mjd"] != 51234.5 else None
+                if sc["t_ref"] is None or g.random() < 0.5:
+                    sc["t_ref"] = {"mjd": 51234.5, "scale": "tcb", "format": "mjd"}
+                else:
+                    sc["t_ref"] = None      # rows without a reference epoch appended to a table that has one
                 must_refuse = True   # rows referred to another epoch are other orbits
             elif kind == "dtype":
                 # same columns and units, other floating-point width: refusing is fine; if it is accepted, the file has to
